@@ -406,6 +406,36 @@ def gen_params(report, uint_bits):
              "qsieve: size limit")
     qs_max_bits = int(m.group(1))
     must(r"assert!\(MAX_MULTIPLIER \* MAX_MULTIPLIER < 1 << 16\);", fbs, "select_multiplier assert")
+    must(r"for k in 1\.\.min\(2 \* n\.bits\(\), MAX_MULTIPLIER\) \{", fbs, "select_multiplier: k < MAX_MULTIPLIER")
+    libs = rx.strip_comments(src("src/lib.rs"))
+    m = must(r"if n\.bits\(\) > ([^{]*?) \{\s*return Err\(", libs, "factor(): refusal of oversize inputs")
+    lib_max_bits = const_eval(parse_expr_text(m.group(1)), {"MINT_WORDS": mint_words})
+    m = must(r"if n\.bits\(\) > (\d+) \{\s*if prefs\.verbose\(Verbosity::Info\) \{\s*eprintln!\(\"Number \{n\} too large for quadratic sieve!\"\);",
+             rx.strip_comments(src("src/mpqs.rs")), "mpqs: size limit")
+    mpqs_max_bits = int(m.group(1))
+    # which size each driver passes to its parameter functions (original n or n * multiplier)
+    sq = rx.strip_comments(src("src/siqs.rs"))
+    m = must(r"let \(norig, n\) = \(n, n \* Uint::from\(k\)\);\s*if n\.bits\(\) > (\d+) \{\s*if prefs\.verbose\(Verbosity::Info\) \{\s*eprintln!\(\"Number \{n\} too large for quadratic sieve!\"\);\s*\}\s*"
+             r"return Ok\(vec!\[\]\);\s*\}\s*let use_double = prefs\.use_double\.unwrap_or\(n\.bits\(\) > 256\);", sq,
+             "siqs: size limit, parameters are taken from n * k")
+    siqs_max_bits = int(m.group(1))
+    # select_a: bit mask over the primes selected by select_siqs_factors (4 * nfacs of them)
+    m = must(r"let mut mask = 0u(\d+);", sq, "select_a: mask type")
+    select_a_mask_bits = int(m.group(1))
+    m = must(r"max\(pool\.len\(\), (\d+) \* nfacs\) - \1 \* nfacs\.\.pool\.len\(\)\s*\} else \{\s*let imin = max\(idx, 2 \* nfacs\) - 2 \* nfacs;\s*imin\.\.imin \+ \1 \* nfacs",
+             sq, "select_siqs_factors: 4 * nfacs primes selected")
+    select_per_nfac = int(m.group(1))
+    must(r"if mask & \(1 << g\) == 0 \{\s*mask \|= 1 << g;", sq, "select_a: mask indexed by the selected primes")
+    must(r"let mlog = usize::BITS - usize::leading_zeros\(s\.interval_size\);\s*assert!\(a\.a\.bits\(\) \+ 2 \* mlog < 255\);\s*"
+         r"assert!\(pol\.b\.bits\(\) \+ mlog < 255\);\s*assert!\(pol\.c\.abs\(\)\.bits\(\) < 255\);", sq,
+         "siqs _finish_polynomial: 256-bit assertions")
+    must(r"let mut amin = f\.target - f\.target / div as u64;\s*let mut amax = f\.target \+ f\.target / div as u64;", sq,
+         "select_a: A within target/div of the target")
+    must(r"let target = max\(\s*Uint::from\(2000u64\),", sq, "select_siqs_factors: target >= 2000")
+    must(r"unwrap_or\(params::mpqs_fb_size\(norig\.bits\(\), use_double\)\)", rx.strip_comments(src("src/mpqs.rs")),
+         "mpqs: fb size from the original n")
+    must(r"unwrap_or\(params::qs_fb_size\(norig\.bits\(\), use_double\)\)", rx.strip_comments(src("src/qsieve.rs")),
+         "qsieve: fb size from the original n")
     m = must(r"if p >= 1 << (\d+) \{\s*return None;\s*\}\s*let div = arith::Dividers::new\(p\);", fbs,
              "prepare_factor_base: 24-bit filter before Dividers::new")
     fb_prime_bits = int(m.group(1))
@@ -449,6 +479,11 @@ def gen_params(report, uint_bits):
     const("FB_PRIME_BITS", fb_prime_bits, "`prepare_factor_base` drops every prime `p >= 1 << 24` before `Dividers::new(p)`: "
           "all factor base primes (and `FBase::bound()`) are below 2^24")
     const("DIVIDERS_MAX_BITS", dividers_bits, "`Dividers::new(p)` asserts `p >> 30 == 0`")
+    const("LIB_MAX_BITS", lib_max_bits, "`factor()` refuses `n.bits() >` this (`64 * MINT_WORDS - 12`)")
+    const("SIQS_MAX_BITS", siqs_max_bits, "`siqs::siqs` refuses `(n * k).bits() >` this")
+    const("SELECT_A_MASK_BITS", select_a_mask_bits, "`siqs::select_a` tracks the selected primes in a mask of this many bits")
+    const("SELECT_PER_NFAC", select_per_nfac, "`select_siqs_factors` selects `4 * nfacs` primes")
+    const("MPQS_MAX_BITS", mpqs_max_bits, "`mpqs::mpqs` refuses `(n * k).bits() >` this")
     const("QS_MAX_BITS", qs_max_bits, "`qsieve::qsieve` refuses `n.bits() >` this")
     const("CONVOLVE_MAX_BITS", conv_max_bits, "`convolve_modn` asserts `zn.n.bits() ≤` this after the dispatch")
     const("FFT_ROOTS_PER_WORD", fft_roots_per_word, "`mulfft::<N>` asserts `l ≤ 256 * N` (ω = √2 has order 256·N modulo 2^(64N)+1)")
